@@ -191,6 +191,31 @@ def _call(args):
         return ("err", traceback.format_exc())
 
 
+class Background(object):
+    """Workers that go on beside the pmap calls of a check (long idle runs).  They run in PROCESSES of their own that are forked
+    before they start anything: a daemon started by a thread of the checking process would have the write end of its stdin pipe
+    inherited by every pool process forked afterwards, and would then not see end-of-file until that pool is gone - which showed
+    as `hang` results whenever the first pool outlived the idle run (thorough tier of C09)."""
+
+    def __init__(self, fn, items, nproc=4):
+        self.pool = multiprocessing.Pool(max(1, min(nproc, len(items)))) if items else None
+        self.res = [self.pool.apply_async(_call, ((fn, a),)) for a in items]
+
+    def results(self):
+        out = []
+        try:
+            for f in self.res:
+                st, r = f.get()
+                if st == "err":
+                    raise RuntimeError("worker failed:\n" + r)
+                out.append(r)
+        finally:
+            if self.pool:
+                self.pool.terminate()
+                self.pool.join()
+        return out
+
+
 def pmap(fn, items, chunksize=1):
     """Parallel map over processes; fn must be a module-level function."""
     items = list(items)
